@@ -103,6 +103,40 @@ func skolemizeGoal(t *Term, pos bool) *Term {
 	return t
 }
 
+// skolemizeQuant replaces positively occurring universal quantifiers in a goal by fresh constants.
+func skolemizeQuant(t *Term, pos bool) *Term {
+	if t.Sort != SBool {
+		return t
+	}
+	if t.kind == tQuant {
+		if pos {
+			skolemCounter++
+			k := Sym(fmt.Sprintf("sk!q%d", skolemCounter), t.Args[1].Sort)
+			return skolemizeQuant(substitute(t.Args[0], t.Args[1], k, map[*Term]*Term{}), pos)
+		}
+		return t
+	}
+	if t.kind != tApp {
+		return t
+	}
+	switch t.Op {
+	case "and", "or":
+		args := make([]*Term, len(t.Args))
+		for i, a := range t.Args {
+			args[i] = skolemizeQuant(a, pos)
+		}
+		if t.Op == "and" {
+			return And(args...)
+		}
+		return Or(args...)
+	case "not":
+		return Not(skolemizeQuant(t.Args[0], !pos))
+	case "=>":
+		return Implies(skolemizeQuant(t.Args[0], !pos), skolemizeQuant(t.Args[1], pos))
+	}
+	return t
+}
+
 func collectAll(roots []*Term) []*Term {
 	seen := map[*Term]int{}
 	var order []*Term
@@ -121,6 +155,7 @@ func (p *Program) buildScript(o *Obligation) *Script {
 	assumes := append([]*Term(nil), o.Assumes...)
 	goal := o.Goal
 	if goal != nil {
+		goal = skolemizeQuant(goal, true)
 		goal = skolemizeGoal(goal, true)
 	}
 	// relevant definitions, to fixpoint
